@@ -25,3 +25,8 @@ claim("C09",
       "exhaustive depth-bounded enumeration of RAM enable/bank/mode/write sequences on the real Mapper against a reference RAM model",
       "For MBC1, MBC3 and MBC5 with every claimed RAM-size code (none, 8, 32, 128, 64 KiB), MBC2 and ROM-only, every sequence of up to 3 (thorough 4) events over {6 enable values at 2 addresses, every bank select, MBC1 mode, 4 values written to 6 window addresses} is executed on the real Mapper; after each event six window addresses are compared with the reference (gating, bank modulo, retention across disable/bank switches, MBC2 nibble mirror) and at each leaf DumpRAM is compared with exactly the stored bytes.",
       "Trusted: ref/cart.go, the snapshot hook. RAM-size code 1 (2 KiB) and MBC3 clock selectors are outside this check (C10/C11).")
+
+claim("C10",
+      "exhaustive enumeration of all RTC counter states (one step each) plus bounded exhaustive latch/access event sequences on the real MBC3 clock against a reference clock",
+      "(a) all 134,217,728 counter states get one real one-second step, compared with the reference carry chain; (b) the sub-second count is preset to every value within 16 of the second boundary and 40 real Mapper cycles are run, all five registers observed through latch+read after every cycle, running and halted, plus an un-hooked run across two emulated seconds; (c) every sequence of up to 4 (thorough 6) events over {latch 00/01, select 08-0C or RAM, 10 write values, enable/disable, one cycle, jump to just before the next second} from three start states, with the complete guest-visible clock (fresh latch + five reads on a restored snapshot) compared after every event.",
+      "Trusted: ref/rtc.go (Pan Docs MBC3), hooks VRTCGet/VRTCSet/VRTCIncrement/VMBCSave. Latch values other than 00/01 are unspecified and outside the alphabet.")
